@@ -629,3 +629,17 @@ def x24(cx: Cx, ob: Ob) -> None:
     from .c13 import check_jsonld_reader
 
     check_jsonld_reader(cx, ob)
+
+
+@obligation("C04-X27", "every entry a loader is given reaches the strict constructor (shared with C13-D4: record builders of from_prefix_map / from_reverse_prefix_map / from_priority_prefix_map / from_extended_prefix_map read every key and value in its role, unfiltered): an entry dropped on the way cannot clash, so a collection the property says must be rejected loads silently", floor=6)
+def x27(cx: Cx, ob: Ob) -> None:
+    from .c13 import d4 as loaders_d4
+
+    loaders_d4.fn(cx, ob) if hasattr(loaders_d4, "fn") else loaders_d4(cx, ob)
+
+
+@obligation("C04-X1", "OWN (shared with C10): no function hands the Record objects of a strictly built converter (or shallow copies sharing their synonym lists) to another converter - a merge into the other converter would add names to the first one's records behind the back of its duplicate check, and two of its records end up claiming one name", floor=6)
+def x1(cx: Cx, ob: Ob) -> None:
+    from .c10 import check_no_aliasing
+
+    check_no_aliasing(cx, ob)
